@@ -9,7 +9,7 @@
 //@ rewrite EGP "Self::estimate_gaussian_covariances_full(" => "estimate_gaussian_covariances_full("
 //@ extract MS from algorithms/linfa-clustering/src/gaussian_mixture/algorithm.rs anchor "fn m_step<D: Data<Elem = F>>(" body
 //@ rewrite MS "Self::estimate_gaussian_parameters(" => "estimate_gaussian_parameters_tok("
-//@ rewrite MS "&log_resp.mapv(|x| x.exp())," => "&log_resp.exp_abs(),   /* &log_resp.mapv(|x| x.exp()) */"
+//@ rewrite-re MS "\.mapv\(\|x\| x\.exp\(\)\)" => ".exp_abs()   /* .mapv(|x| x.exp()) */"
 //@ rewrite-re MS "(\w+) / F::cast\(([\w.()]+)\);" => "\1.div_count_abs(\2);"
 //@ rewrite MS "Self::compute_precisions_cholesky_full(" => "compute_precisions_cholesky_full_tok("
 //@ expect-fail vacuity_guard_mstep
